@@ -34,4 +34,11 @@ Definition judge_big_tied (c : scheme * Z * option Z) : nat :=
   let '(s, n, out) := c in
   let spec := match out with Some v => (v * 2 =? t0 s * (n * (n - 1))) | None => false end in
   code true spec.
+(** same dataset, candidate = the elements in the reverse order, each alone in its bucket ([C01_reversed_against_strict]); [kind] 0 = all
+    tied, 1 = reversed *)
+Definition judge_big (c : scheme * Z * Z * option Z) : nat :=
+  let '(s, n, kind, out) := c in
+  let unit_cost := if kind =? 0 then t0 s else b1 s in
+  let spec := match out with Some v => (v * 2 =? unit_cost * (n * (n - 1))) | None => false end in
+  code true spec.
 
